@@ -207,6 +207,8 @@ func c03plan(tier string, seed int64) []run.Job {
 	for i := 0; i < nr; i++ {
 		jobs = append(jobs, run.Job{Family: "random", Seed: seed*100000 + int64(i), N: per, P: map[string]int{"strat": 1, "lrfree": 1, "maxlen": 7, "inputs": 5}})
 		jobs = append(jobs, run.Job{Family: "sharing", Seed: seed*100000 + 60000 + int64(i), N: per * 8, P: map[string]int{"trims": 0}})
+		// LR-free grammars with LeftTrim wrappers (LeftTrim rewrites error positions and the context's error) and End leaves
+		jobs = append(jobs, run.Job{Family: "random", Seed: seed*100000 + 70000 + int64(i), N: per / 2, P: map[string]int{"strat": 1, "lrfree": 1, "maxlen": 7, "inputs": 5, "trims": 1, "lefttrims": 1, "ends": 1, "memoexpr": 0}})
 	}
 	jobs = append(jobs, enumJobs(4, true, 4, 300)...)
 	return jobs
